@@ -43,13 +43,6 @@ theorem nil_resource_is_error (s : Store) (v : ValFacts) (e : Bool) (l b r : Lis
     (replaceOp s true e l b r v).2 = .err .invalidInput ∧ (deleteOp s true e l b r).2 = .err .invalidInput := by
   simp [addOp, insertOp, replaceOp, deleteOp, addCore, insertCore, replaceCore, deleteCore, run]
 
-/-- no outcome of the model is a crash: every branch of the four operations ends in `ok` or an error -/
-theorem never_panics_prepare (v : ValFacts) (t : String) : prepare v t ≠ .error .panic := by
-  unfold prepare
-  repeat' split
-  all_goals simp_all
-  all_goals (repeat' split) <;> simp_all
-
 /-! ### locality: only the located message changes, and only the located field of it -/
 
 theorem get_put_other (s : Store) (m : PMsg) (id : Nat) (h : id ≠ m.id) : (s.put m).get id = s.get id := by
